@@ -37,6 +37,22 @@ def run_case(c):
     rows = [list(r) for r in dbio.rel_rows(db.conn)]
     if sorted(rows) != sorted(c["rels"]):
         fails.append(("relations_table", rows))
+    # the same graph in MIXED notation: multi-parent features written as repeated keys (Parent=a;Parent=b), the last one as a comma list - the file's
+    # dialect is "repeated keys" then, and the comma list still is a list
+    multi = [k for k, l in enumerate(c["lines"]) if len(l["parents"]) >= 2]
+    if len(multi) >= 2:
+        mixed = []
+        for k, l in enumerate(c["lines"]):
+            ps = [dec(p) for p in l["parents"]]
+            col = "ID=%s" % dec(l["id"]) + ("".join(";Parent=%s" % p for p in ps) if (k in multi and k != multi[-1]) else (";Parent=" + ",".join(ps) if ps else ""))
+            mixed.append("chr1\ts\t%s\t1\t9\t.\t+\t.\t%s" % (dec(l["ftype"]), col))
+        try:
+            dbm = dbio.create("\n".join(mixed) + "\n")
+            rows_m = [list(r) for r in dbio.rel_rows(dbm.conn)]
+            if sorted(rows_m) != sorted(c["rels"]):
+                fails.append(("relations_table_mixed_notation", rows_m))
+        except Exception as e:  # noqa
+            fails.append(("raised_mixed_notation:" + type(e).__name__, str(e)[:200]))
     stored = [l["id"] for l in c["lines"]]
     got_ids = dbio.ids_of(db.all_features())
     if got_ids != stored:
